@@ -110,12 +110,13 @@ def match_known(f, case, known):
     d = f.get("data", {})
     if "C08-K2" in ids and f["bucket"].startswith("nonfinite/") and d.get("only_contact_nan"):
         return "C08-K2"
-    if "C08-K3" in ids and f["bucket"].startswith("contact-outside/"):
+    if ("C08-K3" in ids and f["bucket"].startswith("contact-outside/")) or \
+            ("C08-K5" in ids and f["bucket"].startswith("nonfinite/") and d.get("only_contact_nan")):
         tr = S.truth(case)
         A, B = tr["A"], tr["B"]
         if A.flat and B.flat and A.kind in ("disk", "ellipse") and B.kind in ("disk", "ellipse"):
             if abs(float(A.R[:, 2].dot(B.R[:, 2]))) >= 1.0 - 1e-9:
-                return "C08-K3"
+                return "C08-K3" if f["bucket"].startswith("contact-outside/") else "C08-K5"
     if "C08-K4" in ids and f["bucket"].startswith("contact-outside/") and \
             d.get("pd_hi", 1.0) <= 2e-3 * S.truth(case)["L"]:
         return "C08-K4"
